@@ -154,6 +154,7 @@ type Obligation struct {
 	Axioms  []*Term
 	BytesAxioms bool
 	RowFrames   []rowFrame
+	DeepInst    bool // contract flag deepinst: instantiate the quantified hypotheses at derived source indices too
 	shaped  bool
 	lifted  bool
 	// results
@@ -216,6 +217,9 @@ type FCtx struct {
 	reveal        bool
 	sideFacts     []*Term
 	recApps       []recApp
+	recHeapKeys   map[string][]string // heap arrays read by a recursive spec function over a slice
+	recProbing    map[string]bool
+	probeKeys     map[string]bool
 	recSeen       map[string]bool
 	recDepth      int
 }
@@ -554,6 +558,9 @@ func (c *FCtx) heapGet(st *State, key string, s Sort) *Term {
 	if _, ok := c.keySorts[key]; !ok {
 		c.keySorts[key] = s
 	}
+	if c.probeKeys != nil {
+		c.probeKeys[key] = true
+	}
 	if t, ok := st.heap[key]; ok {
 		return t
 	}
@@ -667,8 +674,13 @@ func (c *FCtx) loadField(state *State, ref *Term, owner types.Type, f *types.Var
 	base := "F$" + structKey(owner) + "." + f.Name()
 	var facts []*Term
 	var slices []*SliceV
+	allPre := true
+	var refs []*Term
 	v := c.build(f.Type(), base, func(path string, lt types.Type, s Sort) *Term {
 		arr := c.heapGet(state, path, SArr(SInt, s))
+		if !(arr.Op == "var" && strings.HasSuffix(arr.Name, "@pre")) {
+			allPre = false
+		}
 		x := Select(arr, ref)
 		if lt != nil {
 			if fct := c.rangeFact(lt, x); !fct.IsTrue() {
@@ -677,6 +689,7 @@ func (c *FCtx) loadField(state *State, ref *Term, owner types.Type, f *types.Var
 			if s == SInt && !isIntType(lt) {
 				// the heap is closed under allocation: stored references are allocated
 				facts = append(facts, ILt(x, c.heapGet(state, "$alloc", SInt)))
+				refs = append(refs, x)
 			}
 		}
 		return x
@@ -694,6 +707,15 @@ func (c *FCtx) loadField(state *State, ref *Term, owner types.Type, f *types.Var
 		facts = append(facts, c.sliceWF(s)...)
 		// the heap is closed under allocation
 		facts = append(facts, ILt(s.Base, allocNow))
+		if allPre {
+			facts = append(facts, ILt(s.Base, Var("$alloc@pre", SInt)))
+		}
+	}
+	if allPre {
+		// read from the heap of the entry state: allocated before the function started
+		for _, x := range refs {
+			facts = append(facts, ILt(x, Var("$alloc@pre", SInt)))
+		}
 	}
 	for _, fct := range facts {
 		state.assume(fct)
@@ -736,19 +758,37 @@ func (c *FCtx) loadElem(state *State, s *SliceV, idx *Term) Value {
 	base := c.memKey(s.Elem)
 	var facts []*Term
 	var slices []*SliceV
+	// the heap is closed under allocation: references stored in it are allocated; what is read from the heap of
+	// the entry state was allocated before the function started
+	allPre := true
+	var refs []*Term
 	v := c.build(s.Elem, base, func(path string, lt types.Type, srt Sort) *Term {
 		mem := c.heapGet(state, path, SArr(SInt, SArr(c.idxSort(), srt)))
+		if !(mem.Op == "var" && strings.HasSuffix(mem.Name, "@pre")) {
+			allPre = false
+		}
 		x := Select(Select(mem, s.Base), abs)
 		if lt != nil {
 			if fct := c.rangeFact(lt, x); !fct.IsTrue() {
 				facts = append(facts, fct)
 			}
+			if srt == SInt && !isIntType(lt) {
+				refs = append(refs, x)
+			}
 		}
 		return x
 	}, nil)
 	c.collectSlices(v, &slices)
+	bound := c.heapGet(state, "$alloc", SInt)
+	if allPre {
+		bound = Var("$alloc@pre", SInt)
+	}
+	for _, x := range refs {
+		facts = append(facts, ILt(x, bound))
+	}
 	for _, sl := range slices {
 		facts = append(facts, c.sliceWF(sl)...)
+		facts = append(facts, ILt(sl.Base, bound))
 	}
 	for _, fct := range facts {
 		state.assume(fct)
